@@ -110,7 +110,7 @@ def scale_hostile_calls():
     from mc.alphabets import BOUNDARY_SIZES_Q, sized_text
     R = 'raw'
     H = []
-    for n in BOUNDARY_SIZES_Q:
+    for n in BOUNDARY_SIZES_Q + [300001, 1300001]:
         t = sized_text(n, 'lines')
         b = t.encode('ascii')
         one = sized_text(n, 'one').encode('ascii')
@@ -135,6 +135,14 @@ def scale_hostile_calls():
               {'encoding': 'latin-1'}]),
             ('big%d-preamble-valid' % n, 'preamble', 'valid',
              [R, 'write_preamble', [t], {'indent': 2}]),
+            ('big%d-preamble-indent-float' % n, 'preamble', None,
+             [R, 'write_preamble', [t], {'indent': 4.0}]),
+            ('big%d-preamble-indent-str' % n, 'preamble', None,
+             [R, 'write_preamble', [t], {'indent': '4'}]),
+            ('big%d-preamble-bogus-codec' % n, 'preamble', None,
+             [R, 'write_preamble', [t], {'encoding': 'bogus'}]),
+            ('big%d-diff-nonascii-codec' % n, 'diff', None,
+             [R, 'write_diff', [b], {'encoding': 'utf-8\xe9'}]),
             ('big%d-meta-format' % n, 'meta', True,
              [R, 'write_meta', [{'k': ['v' * 50] * (n // 60 + 1)}],
               {'meta_format': 'yaml'}]),
